@@ -45,7 +45,7 @@ CLAUSES = ["TypeOK", "UnchangedClause", "EscapeClause", "ProtectClause", "TypedC
 MERGE_CLAUSES = ["NeutralClause", "ReplaceClause", "SurviveClause", "KeyByKeyClause", "NoInventClause", "IdemClause"]
 # (Keys, LeafNames, Depth, NSrc, Small)
 MERGE_PLANS = {
-    "quick": [(["a", "b"], ["i1", "l2"], 2, 2, False), (["a", "b"], ["i1", "nil"], 2, 3, True),
+    "quick": [(["a", "b"], ["i1", "nil"], 2, 2, False), (["a", "b"], ["i1"], 2, 3, True),
               (["a", "b"], ["i1", "sx", "nil", "l1", "l2", "le"], 1, 2, False)],
     "thorough": [(["a", "b"], ["i1", "nil", "l2"], 2, 2, False), (["a", "b"], ["i1", "nil", "lm"], 2, 3, True),
                  (["a"], ["i1", "nil", "le"], 3, 4, False),
@@ -65,7 +65,7 @@ def consts(alpha, n, tabs, fixed=None):
 
 
 def spec_cfg(alpha, n, tabs):
-    return "SPECIFICATION Spec\n" + consts(alpha, n, tabs) + "".join("INVARIANT %s\n" % i for i in CLAUSES) + \
+    return "SPECIFICATION GenSpec\n" + consts(alpha, n, tabs) + "".join("INVARIANT %s\n" % i for i in CLAUSES) + \
            "INVARIANT Emit\nCHECK_DEADLOCK FALSE\n"
 
 
@@ -155,7 +155,7 @@ def run(c):
 
     # ---------------------------------------------------------------- cases
     tables = {}
-    adm, pred = {}, {}
+    adm, pred, lib = {}, {}, {}
     for (name, kind), r in results.items():
         if kind == "spec":
             for t in vlib.extract_printed(r.out, "TAB"):
@@ -167,6 +167,7 @@ def run(c):
             o = json.dumps(outcome(b["w"], b["o"]), sort_keys=True)
             if kind == "spec":
                 adm.setdefault(key, set()).add(o)
+                lib.setdefault(key, set()).update(b.get("lib") or [])
             else:
                 p = pred.setdefault(key, {"kd": False})
                 p["fixed" if b["fx"] else "pinned"] = o
@@ -181,6 +182,11 @@ def run(c):
     bad = [k for k in adm if pred[k]["fixed"] not in adm[k]]
     if bad:
         raise vlib.Inconclusive("model inconsistency: Fixed model result not admissible for %s" % (bad[:3],))
+    # confluence of the specification: the result depends on the order of rewriting only where the statement is silent
+    bad = [k for k in adm if len(adm[k]) > 1 and not lib[k]]
+    if bad:
+        raise vlib.Inconclusive("specification not confluent outside U1-U3 for %s: %s" % (bad[:3], [sorted(adm[k]) for k in bad[:3]]))
+    c.extra["liberal_rules_met"] = {u: sum(1 for k in lib if u in lib[k]) for u in ("U1", "U2", "U3")}
     lines = [json.dumps(tables[t]) for t in sorted(tables)]
     nid = 0
     ndoubt = 0
